@@ -29,7 +29,9 @@ RULE = ("cases = (base class, base hyper-parameters, beta_lower, tau, phi, data 
         "{fit, partial_fit, predict}, match-tracking mode, epsilon, veto table); non-trivial when the history "
         "contains a second winner or a pruning round; distinct by hash of all of these.  Plus histories in which "
         "beta_lower / tau / phi are re-assigned by attribute assignment between training calls (oracle alone): "
-        "non-trivial when a second winner learns after a re-assignment")
+        "non-trivial when a second winner learns after a re-assignment.  Plus long streams of one repeated midpoint "
+        "sample between two categories (oracle alone; up to 2**16+8 co-activations of one ordered pair in the quick "
+        "tier, >= 70000 rows in the thorough tier): non-trivial when one edge count reaches the stream length")
 
 UNREC = 1000000
 
@@ -764,6 +766,243 @@ def compare(ctx, case, line, out, expect, rep):
 
 
 
+# ------------------------------------------------------------------ long streams concentrated on one edge
+#
+# "For each sample TopoART ... increments the edge count from best to second-best": the count of an ordered pair is the
+# number of samples for which that pair was (best, second-best) — for every history, hence also for a very long stream
+# whose samples all fall between the same two categories (tens of thousands of co-activations of ONE ordered pair).
+# The cases above have at most 6*tau <= 48 samples, so no edge count ever exceeds a few dozen.  Here the estimator is
+# driven un-instrumented (only `prune` is observed, to know whether a category was ever removed) through the public
+# API, and the statement is read off the public state after every training call:
+#   * every sample adds one to the counter of its best category (the label it gets, also when that category is new)
+#     and one to the counter of its second-best, and one to adjacency[best, second]; therefore, as long as no category
+#     was removed, for every category s:   sum_b adjacency[b, s] == weight_sample_counter_[s] - #(labels_ == s)
+#     (= the number of second-winner updates s received; with two categories this fixes every single cell);
+#   * an edge count never goes down while no category is removed;
+#   * adjacency is square with one row per category and a zero diagonal.
+
+
+LONG_TARGET_QUICK = 2 ** 16 + 8          # co-activations of one ordered pair, quick tier (about 5 s, once per run)
+LONG_TARGET_THOROUGH = 73728             # >= 70000 rows of the same midpoint sample
+LONG_BATCH = 8192
+
+
+def _long_candidates(r, cls: str, d: int):
+    """(a, b) = two far-apart points of [0,1]^d whose midpoint is exact, in an order that the pilot run filters"""
+    out = []
+    for k in range(18):
+        m_ = r.choice([0.0, 0.0, 0.125, 0.0625]) if k < 8 else r.choice([0.25, 0.375, 0.4375, 0.46875])   # then closer pairs
+        bits = [r.random() < 0.5 for _ in range(d)]
+        if cls == "ART2A" and d > 1 and len(set(bits)) == 1:      # a zero vector has no direction
+            bits[r.randrange(d)] = not bits[0]
+        a = [(1.0 - m_) if t else m_ for t in bits]
+        b = [1.0 - v for v in a]
+        out.append((a, b, r.choice([0.25, 0.4, 0.5, 0.125, 0.0625])))
+    return out
+
+
+def make_long_case(ctx, i: int, seed=None, target=None, entry=None):
+    """Two categories A, B (optionally a third, unrelated one created before / between / after them) and then ONE sample,
+    the exact midpoint of A and B, presented `target` times or more; vigilance low enough for the midpoint to resonate
+    with both.  The geometry / vigilance is picked among random candidates by a pilot run (64 rows; 2048 for the full-length
+    streams) on a scratch estimator (a candidate qualifies when the pilot puts all its co-activations on one ordered pair)."""
+    seed = ctx.seed if seed is None else seed
+    r = gen.rng_for(seed, "C14-long", i)
+    cls = specs.HAS_BETA[(i + seed) % 4]
+    d = r.randint(2, 3) if cls == "ART2A" else r.randint(1, 3)
+    bspec0 = specs.elem_spec(r, cls, d)
+    beta = bspec0["beta"]
+    beta_lower = float(r.choice([beta, beta / 2, beta / 4, 0.0]))
+    phi = r.randint(1, 4)
+    e0, t0 = r.choice(["pfit", "pfit", "fit"]), r.randint(150, 700)      # always drawn: a replay passes both explicitly
+    entry, target = entry or e0, target or t0
+    decoy_at = r.choice([None, None, 0, 1, 2])
+    decoy = [r.randint(0, 16) / 16 for _ in range(d)]
+    # fit prunes every tau samples (re-labelling all rows each time): keep the rounds few on long streams
+    tau = r.choice([max(phi, 64), 128, 1000]) if target < 5000 else r.choice([4096, 10000, 50000])
+    if entry == "pfit" and r.random() < 0.5:
+        tau = r.randint(max(2, phi), 8)
+    enc = (lambda rows: gen.cc(np.array(rows, dtype=float))) if cls == "FuzzyART" else (lambda rows: np.array(rows, dtype=float))
+    chosen = None
+    npilot = 64 if target < 5000 else 2048        # an ordering that flips does so within the first few hundred rows
+    for a, b, rho in _long_candidates(r, cls, d):
+        bspec = dict(bspec0, rho=rho)
+        if cls in ("HypersphereART", "EllipsoidART") and bspec.get("alpha") == 0.0:
+            bspec["alpha"] = 2.0 ** -10
+        spec = {"cls": "TopoART", "base_module": bspec, "beta_lower": beta_lower, "tau": max(tau, 128), "phi": phi}
+        head = [a, b]
+        if decoy_at is not None:
+            head.insert(decoy_at, decoy)
+        mid = [(u + v) / 2 for u, v in zip(a, b)]
+        try:
+            with quiet():
+                p = make(spec)
+                p.partial_fit(enc(head))
+                n0 = p.n_clusters
+                p.partial_fit(enc([mid] * npilot))
+                adj = np.asarray(p.adjacency)
+            if p.n_clusters == n0 >= 2 and adj.ndim == 2 and int(adj.max()) == npilot:
+                chosen = (a, b, mid, head, dict(spec, tau=tau))
+                break
+        except Exception:
+            continue
+    if chosen is None:
+        return None
+    a, b, mid, head, spec = chosen
+    return dict(i=i, seed=seed, cls=cls, spec=spec, head=head, mid=mid, target=target, entry=entry, enc=enc,
+                tau=tau, phi=phi)
+
+
+def run_long_case(ctx, case: dict):
+    cov = ctx.cov
+    cls, spec, head, mid, target, entry, enc = (case[k] for k in ("cls", "spec", "head", "mid", "target", "entry", "enc"))
+    tag = f"TopoART[{cls}].long-stream"
+    rep = {"long": True, "case": case["i"], "seed": case["seed"], "target": target, "entry": entry, "spec": spec,
+           "head_rows": head, "repeated_row": mid,
+           "how": "partial_fit(head_rows), then the repeated row in batches of <= %d rows (entry 'pfit'), or one fit of "
+                  "head_rows + the repeated row `target` times (entry 'fit'); FuzzyART rows are complement-coded" % LONG_BATCH}
+    try:
+        m = make(spec)
+    except Exception as e:
+        ctx.issue("violation", f"TopoART[{cls}].__init__:{exc_enum(e)}", f"constructor raised {e!r}", rep)
+        return
+    removed = [0]
+    o_prune = m.prune
+
+    def prune(X):
+        nb = len(m.W)
+        o_prune(X)
+        removed[0] += nb - len(m.W)
+        cov.hit("long-stream:pruning-round" + (":removes" if nb != len(m.W) else ":keeps-all"))
+    object.__setattr__(m, "prune", prune)
+
+    prev = None          # adjacency after the previous training call
+    presented = 0        # rows of the repeated sample presented so far
+    reached = 0
+
+    def observe(call: str) -> bool:
+        """the statement on the public state after one training call; False = stop this case"""
+        nonlocal prev, reached
+        n = len(m.W)
+        adj = np.asarray(m.adjacency)
+        cnt = [int(t) for t in m.weight_sample_counter_]
+        mask = np.asarray(m._permanent_mask)
+        lab = np.asarray(m.labels_)
+        repl = dict(rep, after=call, repeated_rows_presented=presented)
+        if adj.shape != (n, n) or len(cnt) != n or mask.shape != (n,) or m.n_clusters != n or np.any(np.diag(adj) != 0):
+            ctx.issue("violation", f"{tag}:shape", f"after {call}: |W|={n}, adjacency {adj.shape}, |cnt|={len(cnt)}, "
+                      f"mask {mask.shape}, diagonal {np.diag(adj).tolist() if adj.ndim == 2 else None}", repl)
+            return False
+        if adj.dtype.kind not in "iuf" or not np.all(np.isfinite(adj)) or np.any(adj < 0) or np.any(adj != np.floor(adj)):
+            ctx.issue("violation", f"{tag}:edge-count-not-a-count", f"after {call}: adjacency {adj.tolist()} ({adj.dtype})", repl)
+            return False
+        A = [[int(v) for v in row] for row in adj]
+        if removed[0]:
+            cov.hit("long-stream:category-removed(identity-not-applicable)")
+            prev = None
+            return False
+        if len(lab) != int(m.sample_counter_) or any(not (0 <= int(t) < n) for t in np.unique(lab)):
+            ctx.issue("violation", f"{tag}:labels", f"after {call}: {len(lab)} labels for sample_counter_="
+                      f"{m.sample_counter_}, values {np.unique(lab).tolist()}, |W|={n}", repl)
+            return False
+        firsts = np.bincount(lab.astype(int), minlength=n)
+        second_updates = [cnt[s] - int(firsts[s]) for s in range(n)]
+        col = [sum(A[b_][s] for b_ in range(n)) for s in range(n)]
+        if col != second_updates:
+            s = next(s for s in range(n) if col[s] != second_updates[s])
+            ctx.issue("violation", f"{tag}:edge-count-vs-second-winner-updates",
+                      f"after {call} ({presented} presentations of the repeated row, no category ever removed): category {s} "
+                      f"was the best category of {int(firsts[s])} samples and has weight_sample_counter_={cnt[s]}, i.e. it "
+                      f"received {second_updates[s]} second-winner updates, but the edge counts into it sum to {col[s]} "
+                      f"(adjacency={A}, dtype {adj.dtype}, counters {cnt})", repl)
+            return False
+        if prev is not None and len(prev) <= n:
+            dec = [(i_, j_, prev[i_][j_], A[i_][j_]) for i_ in range(len(prev)) for j_ in range(len(prev))
+                   if A[i_][j_] < prev[i_][j_]]
+            if dec:
+                ctx.issue("violation", f"{tag}:edge-count-decreased", f"after {call}: (best, second, before, after) {dec}", repl)
+                return False
+        prev = A
+        reached = max([reached] + [v for row in A for v in row])
+        cov.hit("long-stream:edge-count=second-winner-updates")
+        return True
+
+    nontrivial = False
+    try:
+        if entry == "fit":
+            with quiet():
+                m.fit(enc(head + [mid] * target))
+            presented = target
+            ok = observe(f"fit of {len(head)}+{target} rows")
+        else:
+            with quiet():
+                m.partial_fit(enc(head))
+            ok = observe("partial_fit(head_rows)")
+            # batches of the repeated row until one ordered pair has `target` co-activations (or twice the budget is spent)
+            sizes = gen.compositions(gen.rng_for(case["seed"], "C14-long-b", case["i"]), target) if target < 5000 else []
+            k = 0
+            while ok and reached < target and presented < 2 * target:
+                nrows = sizes[k] if k < len(sizes) else min(LONG_BATCH, max(1, target - reached))
+                k += 1
+                with quiet():
+                    m.partial_fit(enc([mid] * nrows))
+                presented += nrows
+                ok = observe(f"partial_fit batch {k} ({nrows} rows)")
+    except Exception as e:
+        ctx.issue("violation", f"{tag}:{exc_enum(e)}", f"training raised {e!r} after {presented} presentations of the "
+                  f"repeated row ({cls} {spec['base_module']})", rep)
+        ok = False
+    if ok:
+        # every count a stream can reach must be storable: a training set held in memory has fewer than 2**48 rows
+        # (the whole address space of current machines, one byte per row); the per-category counters are unbounded ints
+        adj = np.asarray(m.adjacency)
+        cap = int(np.iinfo(adj.dtype).max) if adj.dtype.kind in "iu" else 2 ** (np.finfo(adj.dtype).nmant + 1)
+        if cap < 2 ** 48:
+            ctx.issue("violation", "TopoART.long-stream:edge-count-capacity",
+                      f"edge counts are stored as {adj.dtype}, which counts exactly only up to {cap}: the {cap + 1}-th "
+                      f"co-activation of one ordered pair cannot be recorded (weight_sample_counter_ holds unbounded ints: "
+                      f"{[int(t) for t in m.weight_sample_counter_]}; {cls}, entry {entry})", dict(rep, repeated_rows_presented=presented))
+        else:
+            cov.hit("long-stream:edge-count-capacity>=2^48")
+        nontrivial = reached >= min(target, 64)
+        for lim, nm in ((64, "64"), (1000, "1000"), (2 ** 15, "2^15"), (2 ** 16, "2^16"), (70000, "70000")):
+            if reached >= lim:
+                cov.hit(f"long-stream:one-ordered-pair>={nm}-co-activations")
+        cov.hit(f"long-stream:{entry}:{cls}")
+        if len(m.W) > 2:
+            cov.hit("long-stream:three-or-more-categories")
+        if case["i"] < 2:
+            cov.sample({"long_stream": cls, "entry": entry, "repeated_rows": presented, "max_edge_count": reached,
+                        "counters": [int(t) for t in m.weight_sample_counter_]})
+    cov.case(("long", cls, spec, head, mid, target, entry), nontrivial)
+
+
+def run_long(ctx):
+    # the full length: one ordered pair co-activated more than 2**16 times (quick: one base class, chosen by the seed;
+    # thorough: >= 70000 rows, every base class, partial_fit batches and one single fit)
+    target = ctx.scale(LONG_TARGET_QUICK, LONG_TARGET_THOROUGH)
+    # (EllipsoidART steps cost about twice the others: its full-length stream is left to the thorough tier)
+    q0 = 1000 if specs.HAS_BETA[(1000 + ctx.seed) % 4] != "EllipsoidART" else 1001
+    todo = [(q0, "pfit")] if not ctx.thorough else [(1000 + k, e) for k in range(4) for e in ("pfit", "fit")]
+    for i, e in todo:
+        case = None
+        for j in range(6):                # the pilot rejects a candidate set now and then: try the next index
+            case = make_long_case(ctx, i + 4 * j, target=target, entry=e)
+            if case is not None:
+                break
+        if case is None:
+            ctx.cov.hit("long-stream:no-concentrated-configuration-found")
+            continue
+        run_long_case(ctx, case)
+    # short streams, all four base classes, fit and partial_fit, with and without an unrelated third category
+    for i in range(ctx.scale(16, 80)):
+        case = make_long_case(ctx, i)
+        if case is None:
+            ctx.cov.hit("long-stream:no-concentrated-configuration-found")
+            continue
+        run_long_case(ctx, case)
+
+
 def prepare(ctx):
     """Translator tie (see gen_tie.py): the source of this slice is re-translated to Lean on every run
     (harness/artv/ttrans.py) and proved equal to the model the property theorems are about"""
@@ -790,6 +1029,8 @@ def run(ctx):
     # hyper-parameters re-assigned by attribute assignment between training calls (oracle alone)
     for i in range(ctx.scale(160, 2000)):
         run_case(ctx, make_reconf_case(ctx, i))
+    # very long streams concentrated on one ordered (best, second-best) pair (oracle alone)
+    run_long(ctx)
     ctx.trusted.append("kernel tables: base-module kernel results interned by bytes at the call boundary (harness)")
     ctx.assumptions.append("weights are compared by value through interning; arithmetic of the kernels is C03's subject")
 
@@ -797,6 +1038,11 @@ def run(ctx):
 def replay(ctx, payload):
     rep = payload.get("replay") or {}
     if "case" not in rep:
+        return 0
+    if rep.get("long"):
+        case = make_long_case(ctx, int(rep["case"]), rep.get("seed"), rep.get("target"), rep.get("entry"))
+        if case is not None:
+            run_long_case(ctx, case)
         return 0
     case = (make_reconf_case(ctx, int(rep["case"]), rep.get("seed")) if rep.get("reconf")
             else make_case(ctx, int(rep["case"])))
